@@ -1,5 +1,6 @@
 import Flodym.Driver.Parse
 import Flodym.Validators
+import Flodym.Store
 /-!
 # Driver commands for the array tier (streams `array-ops`, `index`, `dims`, `np-semantics`)
 -/
@@ -178,7 +179,7 @@ def arrayStep (s : Store) (toks : List String) : Option (Store × String) :=
       if vs.length ≠ prodList shape then none else
       FArr.mk? dims (ND.ofFlat shape vs.toArray 0)))
   | ["full", h, ds, c] =>
-    some (putArr s h (do some (FArr.full (← s.dset? ds) (← parseRat? c))))
+    some (putArr s h (do FArr.full? (← s.dset? ds) (← parseRat? c)))
   | ["scalar", h, c] => some (putArr s h ((parseRat? c).map FArr.scalar))
   | ["copy", h, x] => some (putArr s h (s.arr? x))
   | "sumto" :: h :: x :: ks => some (putReduced s h x (do (← s.arr? x).sumTo? (← ks.mapM (parseDimKey? s))))
